@@ -674,4 +674,114 @@ theorem hasDataAnswer_lift {P : US D → Prop} (hP : ∀ s, P s → hasDataAnswe
   · exact hP s hp
   · exact hasDataAnswer_setNew_empty (hP t hp) hn
 
+/-! ### newest of all entries vs newest complete entry -/
+
+theorem metaLe_antisymm {a b : Meta} (h1 : metaLe a b = true) (h2 : metaLe b a = true) : a = b := by
+  cases a with | mk ai ax at' => cases b with | mk bi bx bt =>
+  simp only [metaLe, bne_iff_ne, ne_eq] at h1 h2
+  by_cases ht : at' = bt
+  · subst ht
+    simp only [not_true_eq_false, if_false] at h1 h2
+    by_cases hx : ax = bx
+    · subst hx
+      simp only [not_true_eq_false, if_false, decide_eq_true_eq] at h1 h2
+      have : ai = bi := by omega
+      subst this; rfl
+    · have hx' : ¬ bx = ax := fun e => hx e.symm
+      simp only [hx, hx', not_false_eq_true, if_true, decide_eq_true_eq] at h1 h2
+      omega
+  · have ht' : ¬ bt = at' := fun e => ht e.symm
+    simp only [ht, ht', not_false_eq_true, if_true, decide_eq_true_eq] at h1 h2
+    omega
+
+/-- the newest of a list of metas: a member that every member is ≤ -/
+theorem newestMeta_of_max : ∀ (l : List Meta) (m : Meta), m ∈ l → (∀ x ∈ l, metaLe x m = true) → newestMeta l = some m := by
+  intro l
+  induction l with
+  | nil => intro m hm; cases hm
+  | cons a t ih =>
+    intro m hm hmax
+    simp only [newestMeta]
+    cases hn : newestMeta t with
+    | none =>
+      simp only
+      -- t has no element, so m = a
+      have ht : t = [] := by
+        cases t with
+        | nil => rfl
+        | cons b t' =>
+          exfalso
+          simp only [newestMeta] at hn
+          cases hq : newestMeta t' with
+          | none => rw [hq] at hn; cases hn
+          | some q => rw [hq] at hn; simp only at hn; split at hn <;> cases hn
+      subst ht
+      simp only [List.mem_singleton] at hm
+      rw [hm]
+    | some n =>
+      simp only
+      have hnt : n ∈ t := by
+        clear ih hm hmax
+        induction t generalizing n with
+        | nil => simp [newestMeta] at hn
+        | cons b t' ih' =>
+          simp only [newestMeta] at hn
+          cases hn' : newestMeta t' with
+          | none => rw [hn'] at hn; simp only [Option.some.injEq] at hn; rw [← hn]; exact List.mem_cons_self
+          | some n' =>
+            rw [hn'] at hn
+            simp only at hn
+            split at hn
+            · simp only [Option.some.injEq] at hn; rw [← hn]; exact List.mem_cons_of_mem _ (ih' n' hn')
+            · simp only [Option.some.injEq] at hn; rw [← hn]; exact List.mem_cons_self
+      rcases List.mem_cons.1 hm with rfl | hmt
+      · -- m = a is the head: n ≤ m; if m ≤ n then n = m
+        have hnm := hmax n (List.mem_cons_of_mem _ hnt)
+        by_cases hle : metaLe m n = true
+        · simp only [hle, if_true]
+          rw [metaLe_antisymm hnm hle]
+        · simp only [hle]
+          rfl
+      · have := ih m hmt (fun x hx => hmax x (List.mem_cons_of_mem _ hx))
+        rw [this] at hn
+        simp only [Option.some.injEq] at hn
+        subst hn
+        simp only [hmax a List.mem_cons_self, if_true]
+
+/-- when the entry carrying the newest meta.json of ALL entries is complete (and ids are distinct),
+"newest complete snapshot" and "newest snapshot" coincide -/
+theorem C8_of_newestOfAll {l : List (S8 D)} {m : Meta} {d : D}
+    (hall : ∀ x ∈ l, ∀ m', x.mt = some m' → metaLe m' m = true)
+    (hids : (l.map (·.id)).Nodup) {x : S8 D} (hx : x ∈ l) (hid : x.id = m.id) (hmt : x.mt = some m)
+    (hdir : x.dir = true) (hdb : x.db = some d) : C8 l m d := by
+  constructor
+  · unfold newest8
+    apply newestMeta_of_max
+    · rw [List.mem_filterMap]
+      exact ⟨x, hx, by simp [hdir, hdb, hmt]⟩
+    · intro y hy
+      rw [List.mem_filterMap] at hy
+      obtain ⟨z, hz, hzy⟩ := hy
+      split at hzy
+      · exact hall z hz y hzy
+      · cases hzy
+  · have : find8 l m.id = some x := by
+      unfold find8
+      clear hall
+      induction l with
+      | nil => cases hx
+      | cons a t ih =>
+        simp only [List.map_cons, List.nodup_cons] at hids
+        rcases List.mem_cons.1 hx with rfl | hxt
+        · simp [List.find?, hid]
+        · have hne : a.id ≠ m.id := by
+            intro e
+            exact hids.1 (List.mem_map.2 ⟨x, hxt, by rw [hid, e]⟩)
+          have hb : (a.id == m.id) = false := by simp [hne]
+          simp only [List.find?, hb]
+          exact ih hids.2 hxt
+    rw [this]
+    simp [hdb]
+
+
 end RqModel.Upgrade
